@@ -241,7 +241,7 @@ func (e BridgeEngine) genKind(r *Run, kind string) (Step, bool) {
 		n := 1 + r.Rng.IntN(3)
 		for i := 0; i < n && i < len(pend); i++ {
 			p := pend[i]
-			if r.Pct(25) {
+			if r.Pct(25) || (r.Cfg.World.IbcVoucher != nil && r.Pct(60)) { // deposits with an IBC target may stay parked: do not queue behind them
 				p = pend[r.Rng.IntN(len(pend))]
 			}
 			txs = append(txs, Tx{K: "execute_claim", S: KeyName("user", r.Rng.IntN(st.NUsers)), A: A("chain", c.Name, "n", p), Gas: 5_000_000})
@@ -265,7 +265,14 @@ func (e BridgeEngine) genKind(r *Run, kind string) (Step, bool) {
 		}
 		t := toks[r.Rng.IntN(len(toks))]
 		if r.Pct(70) {
-			return Step{Kind: "ext", A: A("chain", c.Name, "op", "send_to_fx", "symbol", t.Symbol, "user", r.Rng.IntN(st.NUsers), "amount", 1+r.Rng.IntN(5000), "target", "")}, true
+			target := ""
+			if v := r.Cfg.World.IbcVoucher; v != nil && r.Pct(45) {
+				// deposit that is to travel on over IBC: the open channel (bech32 or hex receiver form), sometimes a route
+				// that does not exist
+				target = []string{"ibc/0/px", "ibc/0/px", "ibc/0/0x", "px/transfer/channel-0", "ibc/7/px", "ibc/1/px"}[r.Rng.IntN(6)]
+				r.Fault("deposit-with-ibc-target")
+			}
+			return Step{Kind: "ext", A: A("chain", c.Name, "op", "send_to_fx", "symbol", t.Symbol, "user", r.Rng.IntN(st.NUsers), "amount", 1+r.Rng.IntN(5000), "target", target)}, true
 		}
 		// inbound bridge call to an EOA (tokens only)
 		nt := 1 + r.Rng.IntN(len(toks))
